@@ -202,7 +202,21 @@ def _t_numpy_alias(srcs):
                     n.id = "numpy"
 
 
-TREE_TRANSFORMS = {"@coerce_params": _t_coerce_params, "@early_exit": _t_early_exit, "@numpy_alias": _t_numpy_alias, "@kwargs_calls": _t_kwargs_calls, "@strip_docs_annotate": _t_strip_docs_annotate, "@logging": _t_logging}
+def _t_accept_lists(srcs):
+    """`if not isinstance(X, np.ndarray): X = np.array(X)` at the entry of every graph utility (accept nested lists)"""
+    import ast
+    for pth, tree in srcs.items():
+        if not pth.endswith(("sempler/utils.py",)):
+            continue
+        for n in ast.walk(tree):
+            if isinstance(n, ast.FunctionDef) and n.args.args:
+                for a in n.args.args[:2]:
+                    if a.arg in ("A", "G", "P", "pdag", "ordered"):
+                        k = 1 if (n.body and isinstance(n.body[0], ast.Expr) and isinstance(n.body[0].value, ast.Constant) and isinstance(n.body[0].value.value, str)) else 0
+                        n.body[k:k] = ast.parse("if not isinstance(%s, np.ndarray):\n    %s = np.array(%s)\n" % (a.arg, a.arg, a.arg)).body
+
+
+TREE_TRANSFORMS = {"@coerce_params": _t_coerce_params, "@accept_lists": _t_accept_lists, "@early_exit": _t_early_exit, "@numpy_alias": _t_numpy_alias, "@kwargs_calls": _t_kwargs_calls, "@strip_docs_annotate": _t_strip_docs_annotate, "@logging": _t_logging}
 
 
 def rename_locals(path, qual):
